@@ -571,6 +571,9 @@ class Surrogates(Cached):
         :return: the Pearson correlation test matrix.
         """
         (N, n_time) = original_data.shape
+        if np.shape(surrogates) != (N, n_time):
+            raise ValueError("surrogates must have the shape of "
+                             "original_data.")
         return _test_pearson_correlation(to_cy(original_data, DFIELD),
                                          to_cy(surrogates, DFIELD),
                                          N, n_time)
@@ -597,6 +600,9 @@ class Surrogates(Cached):
         :return: the mutual information test matrix.
         """
         (N, n_time) = original_data.shape
+        if np.shape(surrogates) != (N, n_time):
+            raise ValueError("surrogates must have the shape of "
+                             "original_data.")
         #  Calculate symbolic time series and histograms
         #  Calculate 2D histograms and mutual information
         #  mi[i,j] gives the mutual information between the ith original_data
